@@ -1,4 +1,4 @@
-"""C05 -- elements never move while they live.  Decided for List only: the step contracts of
+"""C05 -- elements never move while they live.  Decided for List, HashMap, HashSet: the step contracts of
 List::insert / remove / swap carry FRAMES that name exactly the link fields that may change; the
 payload of every existing element and every node not adjacent to the operation is outside the
 frame, and the predicates compare node ADDRESSES, so an element that was relocated, copied or
@@ -14,10 +14,19 @@ for _u in _c03.UNITS:
         _d = dict(_u)
         _d["prop"] = "C05"
         UNITS.append(_d)
-TRUSTED = _c03.TRUSTED
+_spec2 = importlib.util.spec_from_file_location("units_c02_for_c05", os.path.join(os.path.dirname(__file__), "c02.py"))
+_c02 = importlib.util.module_from_spec(_spec2)
+_spec2.loader.exec_module(_c02)
+for _u in _c02.UNITS:
+    if ".insert@" in _u["name"] or ".remove@" in _u["name"] or _u["name"].endswith(".layout"):
+        _d = dict(_u)
+        _d["prop"] = "C05"
+        UNITS.append(_d)
+TRUSTED = _c03.TRUSTED + _c02.TRUSTED
 ASSUMPTIONS = [
-    "ONLY List is covered. Map, MultiMap, HashMap, HashSet, PoolList and PoolMap have no step contracts yet: for them C05 is not decided",
+    "List, HashMap and HashSet are covered (insert / remove step contracts; HashMap/HashSet insert relative to bucket chains of <= 2 nodes). "
+    "Map, MultiMap, PoolList and PoolMap have no step contracts: for them C05 is not decided; swap of the hash containers is not covered",
     "history statement = induction over operations: no operation's frame contains the payload or the address of an element other than the one inserted / removed",
     "iterators are plain node pointers (List::Iterator::item), so iterator validity is node address stability",
 ]
-EXPLANATION = "Address stability of List elements follows from the frames (assigns clauses) of the step contracts of insert, remove and swap, discharged by DFCC for symbolic neighbourhoods."
+EXPLANATION = "Address stability of List / HashMap / HashSet elements follows from the frames (assigns clauses) of the step contracts of insert, remove (and List::swap), discharged by DFCC for symbolic neighbourhoods: no frame contains the key/value or the address of another element."
